@@ -1,5 +1,6 @@
 import GeomV.C03.LemmasMCentroid
 import GeomV.C03.LemmasBBox
+import GeomV.C03.LemmasPip
 import GeomV.C03.ProofsReal
 /-!
 # C03 — property theorems (exact part)
@@ -66,12 +67,14 @@ theorem list_sum_nonneg {l : List Rat} (h : ∀ x ∈ l, 0 ≤ x) : 0 ≤ l.sum 
 
 /-- **Area clause.** For every valid polygon `p` (shell :: holes, `ValidPoly`) and every combination
 `ss` of per-ring reversal, rotation and closed/unclosed spelling, `Polygon.Area` of the spelled
-polygon is measure(shell) − Σ measure(holes).  `PipAgrees` is the per-instance tie to property C02
-(within.go's answer = crossing-number classification on the calls `area` makes); it is decidable,
-and the judge evaluates it on every generated case. -/
+polygon is measure(shell) − Σ measure(holes).  The hole-sign logic goes through within.go's
+point-in-polygon test; that it answers the crossing-number classification is property C02's theorem
+(`GeomV.C02.pointInPolygon_spec`), composed here in `LemmasPip.lean` (`pip_spec`), so no per-case
+hypothesis about it remains. -/
 theorem C03_area (p : Poly) (ss : List Spell) (hlen : ss.length = p.length)
-    (hv : ValidPoly p = true) (hag : PipAgrees (respell ss p) = true) :
+    (hv : ValidPoly p = true) :
     polygonArea (respell ss p) = Spec.area p := by
+  have hag : PipAgrees (respell ss p) = true := pipAgrees_respell ss hv
   cases p with
   | nil => simp [ValidPoly] at hv
   | cons shell holes =>
@@ -83,16 +86,15 @@ theorem C03_area (p : Poly) (ss : List Spell) (hlen : ss.length = p.length)
 of shells minus holes.  (`HolesFit`: holes do not outweigh their shell — see Spec.) -/
 theorem C03_marea (mp : MPoly) (sss : List (List Spell))
     (hlen : List.Forall₂ (fun ss p => ss.length = p.length) sss mp)
-    (hv : ∀ p ∈ mp, ValidPoly p = true ∧ HolesFit p = true)
-    (hag : ∀ p' ∈ List.zipWith respell sss mp, PipAgrees p' = true) :
+    (hv : ∀ p ∈ mp, ValidPoly p = true ∧ HolesFit p = true) :
     multiPolygonArea (List.zipWith respell sss mp) = Spec.marea mp := by
   have hmap : (List.zipWith respell sss mp).map polygonArea = mp.map Spec.area := by
     induction hlen with
     | nil => rfl
     | @cons ss p sst mpt hl _ ih =>
       simp only [List.zipWith_cons_cons, List.map_cons]
-      rw [C03_area p ss hl (hv p (by simp)).1 (hag _ (by simp)),
-        ih (fun q hq => hv q (by simp [hq])) (fun q hq => hag q (by simp [hq]))]
+      rw [C03_area p ss hl (hv p (by simp)).1,
+        ih (fun q hq => hv q (by simp [hq]))]
   unfold multiPolygonArea Spec.marea
   rw [hmap, ← sumR_eq_sum, absR_eq_abs, abs_of_nonneg]
   rw [sumR_eq_sum]
@@ -110,7 +112,7 @@ def exSpell : List Spell := [⟨1, false, true⟩, ⟨2, true, false⟩]
 example : ValidPoly exPoly = true ∧ HolesFit exPoly = true ∧ PipAgrees (respell exSpell exPoly) = true ∧
     exSpell.length = exPoly.length := by decide +kernel
 example : polygonArea (respell exSpell exPoly) = 94 := by
-  rw [C03_area exPoly exSpell (by decide) (by decide +kernel) (by decide +kernel)]; decide +kernel
+  rw [C03_area exPoly exSpell (by decide) (by decide +kernel)]; decide +kernel
 
 
 /-! ## Centroid -/
@@ -316,12 +318,11 @@ ring".**  For a multi-polygon `mp` of valid members, every choice `sss` of per-r
 start vertex with closed spelling (the statement's "closed rings"), the FIXED `MultiPolygon.Centroid`
 returns the area-weighted centroid of the base `mp` (shells `+measure`, holes `−measure`) — the same
 point for every spelling, in particular when any single ring is reversed.  `hW`: the total weight is
-not zero (otherwise the Go code divides by zero); `PipAgrees` as in `C03_area`. -/
+not zero (otherwise the Go code divides by zero). -/
 theorem C03_mcentroid (mp : MPoly) (sss : List (List Spell))
     (hlen : List.Forall₂ (fun ss p => ss.length = p.length) sss mp)
     (hclosed : ∀ ss ∈ sss, ∀ s ∈ ss, s.closed = true)
     (hv : ∀ p ∈ mp, ValidPoly p = true)
-    (hag : ∀ p' ∈ List.zipWith respell sss mp, PipAgrees p' = true)
     (hW : ((mp.flatMap weights).map (·.1)).sum ≠ 0) :
     multiPolygonCentroid (List.zipWith respell sss mp) = (.fin (mcentroid mp).x, .fin (mcentroid mp).y) := by
   have hmem : ∀ p' ∈ List.zipWith respell sss mp, ∀ s,
@@ -334,9 +335,9 @@ theorem C03_mcentroid (mp : MPoly) (sss : List (List Spell))
       simp only [List.zipWith_cons_cons, List.mem_cons] at hp'
       rcases hp' with e | hp'
       · subst e
-        exact mpCentroidRings_valid p ss hl (hclosed ss (by simp)) (hv p (by simp)) (hag _ (by simp))
-      · exact ih (fun q hq => hclosed q (by simp [hq])) (fun q hq => hv q (by simp [hq]))
-          (fun q hq => hag q (by simp [hq])) p' hp'
+        exact mpCentroidRings_valid p ss hl (hclosed ss (by simp)) (hv p (by simp))
+          (pipAgrees_respell ss (hv p (by simp)))
+      · exact ih (fun q hq => hclosed q (by simp [hq])) (fun q hq => hv q (by simp [hq])) p' hp'
   have hrel := flatMap_weights_respell mp sss hlen
   unfold multiPolygonCentroid
   rw [mpCentroidAcc_fold _ hmem, foldl_addW]
